@@ -77,7 +77,7 @@ class ConvertMonitor:
             return
         lo, hi = r
         m = quantity.magnitude
-        if not kit.finite(m) or not kit.finite(result.magnitude):
+        if not kit.finite(m):
             ctx.count("convert/skipped_nonfinite")
             return
         mf = oracle.F(m)
@@ -92,6 +92,17 @@ class ConvertMonitor:
         if decades > 280:
             # some partial product of the plan may leave the float range: not a unit question
             ctx.count("convert/skipped_intermediate_may_leave_float_range")
+            return
+        if not kit.finite(result.magnitude):
+            # a finite magnitude whose exact image is finite and every partial product of which stays far inside
+            # the float range came back as NaN or an infinity: that is a returned value, and it is not the right one
+            is_nan = result.magnitude != result.magnitude
+            if is_nan or decades < 150:
+                ctx.violation(f"{self.key_prefix}:wrong-magnitude:not-a-finite-number",
+                              f"{m!r} {src} -> {other_unit}: got {result.magnitude!r}, oracle [{core.sf(elo)!r}, {core.sf(ehi)!r}]",
+                              {"src_mag": repr(m), "src": repr(src), "dst": repr(other_unit), "got": repr(result.magnitude)})
+            else:
+                ctx.count("convert/skipped_nonfinite")
             return
         degree = orc.degree(src, other_unit)
         rel = self.rel * degree
